@@ -1,12 +1,14 @@
 #!/usr/bin/env python3
 """ddmin_unsat.py <query.smt2>: greedy minimisation of the assert lines of an unsat stand-alone query (debugging aid)."""
 import subprocess, sys
+import os
+SOLVER = os.environ.get("SOLVER", "z3")
 lines = open(sys.argv[1]).read().split("\n")
 idx = [i for i, l in enumerate(lines) if l.startswith("(assert ")]
 def unsat(keep):
     ks = set(keep)
     txt = "\n".join(l for i, l in enumerate(lines) if not l.startswith("(assert ") or i in ks)
-    r = subprocess.run(["z3", "-in", "-T:10", "smt.mbqi=false"], input=txt.encode(), capture_output=True).stdout.decode()
+    r = subprocess.run((["cvc5", "--lang=smt2", "--tlimit=10000"] if SOLVER == "cvc5" else ["z3", "-in", "-T:10", "smt.mbqi=false"]), input=txt.encode(), capture_output=True).stdout.decode()
     return r.strip().split("\n")[0] == "unsat"
 keep = list(idx)
 assert unsat(keep), "not unsat to begin with"
